@@ -50,6 +50,12 @@ for name in sorted(os.listdir("%s/%s" % (root, pid))):
                        "checks": results, "false_alarm_in": alarms}
     print("== %s/%s tests_ok=%s alarms=%s" % (pid, name, tests_ok, alarms))
     dst = "/verif/harmless/%s/%s" % (pid, name)
+    try:
+        meta["note"] = json.load(open(dst + "/meta.json")).get("note") or meta.get("note")
+        if meta["note"] is None:
+            del meta["note"]
+    except (OSError, ValueError):
+        pass
     shutil.rmtree(dst, ignore_errors=True)
     shutil.copytree(src, dst)
     json.dump(meta, open(dst + "/meta.json", "w"), indent=1)
